@@ -66,6 +66,10 @@ package fbserver
 //@ ensures[any-reply] r.Question[0].Qtype == dns.TypeANY && err == nil ==> nwritten == old(nwritten) + 1 && lastWritten == mm && asptr(mm, "dns.Msg").Id == r.Id && asptr(mm, "dns.Msg").Response && len(asptr(mm, "dns.Msg").Answer) == 1
 //@ ensures[any-hinfo] r.Question[0].Qtype == dns.TypeANY && err == nil ==> dyntype(asptr(mm, "dns.Msg").Answer[0]) == ptrtag("dns.HINFO") && asptr(asptr(mm, "dns.Msg").Answer[0], "dns.HINFO").Cpu == "RFC 8482" && asptr(asptr(mm, "dns.Msg").Answer[0], "dns.HINFO").Os == "" && asptr(asptr(mm, "dns.Msg").Answer[0], "dns.HINFO").Hdr.Ttl == 86400 && asptr(asptr(mm, "dns.Msg").Answer[0], "dns.HINFO").Hdr.Rrtype == dns.TypeHINFO && asptr(asptr(mm, "dns.Msg").Answer[0], "dns.HINFO").Hdr.Name == r.Question[0].Name
 
+// (C10) a reply carries an OPT record exactly when the query did. The synthesized reply is built by SetReply alone,
+// which adds no OPT: for a query WITH an OPT record this clause fails -- a known finding (known_findings.txt).
+//@ before ResponseWriter.WriteMsg#0 check[any-opt-echoed] (uf.edns0of(r) != nil) == (len(m.Extra) >= 1)
+
 //@ func anyHandler.Name
 //@ pure
 //@ func maxAnswerHandler.Name
